@@ -198,6 +198,72 @@ def solved(rec, ground, rnd, f, unit, k, out):
                                     longest_segment_wavelengths=float(max(max(p['lens']) for p in geo.pulses) / lam)))
 
 
+def cmdline_case(args):
+    """through main(): the V/m table is the field at the REQUESTED far-field power and distance (the source power when
+       none is requested) -- whatever else is asked for in the same run (near field with its own power level), and it
+       satisfies |E| = sqrt(59.96 P 10^(dBi/10)) / r against the dBi table printed next to it"""
+    name, base = args
+    import io, contextlib
+    from . import report as R
+    from mininec.mininec import main
+    out = dict(mism=[], exc=None)
+
+    def run(extra):
+        so, se = io.StringIO(), io.StringIO()
+        with contextlib.redirect_stdout(so):
+            rc = main(base + extra, f_err=se)
+        if rc:
+            raise RuntimeError('main returned %r: %s' % (rc, se.getvalue()[:200]))
+        st = R.parse_report(so.getvalue())['steps'][0]
+        return st, so.getvalue()
+    try:
+        both = ['--option=far-field', '--option=far-field-absolute']
+        ref, _ = run(both)
+        p_in = sum(b['power'] for b in ref['source_data'])
+        variants = [('near-field-with-own-power', both + ['--near-field=1,2,3,1,1,1,1,1,2', '--option=near-field', '--nf-power=100'], p_in, 1.0),
+                    ('near-field-without-power', both + ['--near-field=1,2,3,1,1,1,1,1,2', '--option=near-field'], p_in, 1.0),
+                    ('requested-power', both + ['--ff-power=50'], 50.0, 1.0),
+                    ('requested-power-and-distance', both + ['--ff-power=50', '--ff-distance=20'], 50.0, 20.0),
+                    ('requested-distance', both + ['--ff-distance=20'], p_in, 20.0),
+                    ('near-field-power-and-far-field-power', both + ['--near-field=1,2,3,1,1,1,1,1,2', '--option=near-field', '--nf-power=100', '--ff-power=50'], 50.0, 1.0)]
+        for vname, extra, power, dist in variants:
+            st, txt = run(extra)
+            db = st['far_db']
+            info, rows = st['far_abs']
+            if len(db) != len(rows) or len(db) != len(ref['far_db']):
+                out['mism'].append(dict(what='cmdline-far-field-rows', variant=vname))
+                continue
+            # dBi table independent of everything requested
+            if max(abs(a[k] - b[k]) for a, b in zip(db, ref['far_db']) for k in (2, 3, 4) if a[k] > -200 and b[k] > -200) > 2e-3:
+                out['mism'].append(dict(what='cmdline-dbi-depends-on-requests', variant=vname))
+            if abs(info.get('power', power) - power) > 1e-4 * power:
+                out['mism'].append(dict(what='cmdline-power-level', variant=vname, printed=info.get('power'), requested=power))
+            for a, b in zip(db, rows):
+                # columns: zenith, azimuth, E_theta magnitude, phase, E_phi magnitude, phase
+                for gcol, ecol in ((2, 2), (3, 4)):
+                    if a[gcol] < -60:
+                        continue
+                    want = math.sqrt(59.96 * power * 10 ** (a[gcol] / 10)) / dist
+                    if abs(b[ecol] - want) > 2e-3 * want:
+                        out['mism'].append(dict(what='cmdline-field-not-at-requested-power', variant=vname,
+                                                printed=b[ecol], expected=want))
+                        break
+                else:
+                    continue
+                break
+    except Exception as e:      # noqa
+        import traceback
+        out['exc'] = repr(e) + traceback.format_exc()[-500:]
+    return out
+
+
+CMD_BASES = [
+    ('sloping-dipole-free', ['-f', '14.2', '-w', '6,-5,0,10,5,1,12,0.002', '--excitation-pulse=3', '--theta=10,35,3', '--phi=0,60,3']),
+    ('inverted-l-ground', ['-f', '7.1', '--medium=0,0,0', '-w', '4,0,0,0,0,0,8,0.002', '-w', '3,0,0,8,5,2,8,0.002',
+                           '--excitation-pulse=1', '--theta=10,35,3', '--phi=0,60,3']),
+]
+
+
 def jobs(chk, tier):
     for r, g, cfg in T.records(chk, tier, INVS):
         if not r.get('reject') and not any(o.get('kind') == 'A' for o in r['input']):
@@ -232,6 +298,12 @@ def run(tier):
         for mm in o['mism']:
             chk.violation(dict(kind=mm['what'], custom_power=mm.get('custom_power'), cause=mm.get('cause')),
                           dict(input=r['input'], ground=g, info=mm, spec=r))
+    for (name, base), o in zip(CMD_BASES, C.parallel_map(cmdline_case, CMD_BASES, chunksize=1)):
+        chk.case('cmdline/' + name, True, sample=dict(cmdline=name), n=6)
+        if o['exc']:
+            chk.violation(dict(kind='exception', exc=o['exc'].split('(')[0]), dict(cmdline=name, exc=o['exc']))
+        for mm in o['mism']:
+            chk.violation(dict(kind=mm['what'], variant=mm.get('variant')), dict(cmdline=name, info=mm))
     return chk.finish(
         rule='one case per accepted final state of Topology.tla with at least one pulse (evaluations count compared '
              'directions); non-trivial = at least two objects or two kinds of pulses (interior / junction / ground)')
